@@ -89,7 +89,7 @@ int disasm_pic18(
         }
         case OP_F_B_A:
         {
-          f = opcode & 0x7f;
+          f = opcode & 0xff;
           a = (opcode >> 8) & 1;
           b = (opcode >> 9) & 7;
 
